@@ -227,7 +227,8 @@ def materialize_tags(
 
   def transform(value, state: daglish.State):
     value = state.map_children(value)
-    if isinstance(value, TaggedValueCls) and value.value is not NO_VALUE and (
+    if isinstance(value, TaggedValueCls) and getattr(
+        value, 'value', NO_VALUE) is not NO_VALUE and (
         tags is None or set(value.tags) & tags):
       return value.value
     elif isinstance(value, config.Buildable):
